@@ -1,18 +1,18 @@
 #!/bin/sh
-# try_patch.sh <patch.diff> [check ids...]  - apply a change to /repo, run the quick checks, undo it.
-# Prints, per check, whether it raised a violation.  /repo is always restored.
+# try_patch.sh <patch.diff> [check ids...]  - run quick checks against a scratch worktree of /repo with the patch applied.
+# Neither /repo nor /verif/evidence is touched (VERIF_REPO / VERIF_BUILD / VERIF_OUT point into the scratch tree).
 set -u
-patch="$1"; shift
+patch="$(readlink -f "$1")"; shift
+wt="/tmp/tp_$$"
+git -C /repo worktree add -f --detach "$wt" HEAD >/dev/null 2>&1 || { echo "cannot create worktree"; exit 2; }
+trap 'git -C /repo worktree remove --force "$wt" >/dev/null 2>&1; rm -rf "$wt"' EXIT
+git -C "$wt" apply "$patch" || { echo "patch does not apply to HEAD"; exit 2; }
 cd /verif
-git -C /repo diff --quiet || { echo "/repo has local changes"; exit 2; }
-git -C /repo apply "$patch" || { echo "patch does not apply"; exit 2; }
-rm -rf build/evidence.bak; cp -a evidence build/evidence.bak
-trap 'git -C /repo checkout -- . ; (cd /repo && make >/dev/null 2>&1); rm -rf /verif/evidence; cp -a /verif/build/evidence.bak /verif/evidence' EXIT
-(cd /repo && make >/dev/null 2>&1 && make check 2>&1 | grep -E "^# (PASS|FAIL|ERROR)" | tr '\n' ' '); echo
 ids="$*"
 [ -n "$ids" ] || ids=$(python3 -c "import json;print(' '.join(c['property_id'] for c in json.load(open('MANIFEST.json'))['checks']))")
+export VERIF_REPO="$wt" VERIF_BUILD="$wt/vbuild" VERIF_OUT="$wt/vout"
 for id in $ids; do
-  VERIF_DEADLINE_S=${VERIF_DEADLINE_S:-100} ./vcheck $id --tier quick > build/try.$id.log 2>&1
+  VERIF_DEADLINE_S=${VERIF_DEADLINE_S:-100} ./vcheck $id --tier ${TIER:-quick} > "$wt/try.$id.log" 2>&1
   rc=$?
-  echo "$id rc=$rc violations=$(grep -c '^VIOLATION' build/try.$id.log) $(grep '^  kind' build/try.$id.log | head -3 | tr '\n' ';')"
+  echo "$id rc=$rc violations=$(grep -c '^VIOLATION' "$wt/try.$id.log") $(grep '^  kind' "$wt/try.$id.log" | head -3 | tr '\n' ';')"
 done
